@@ -2,7 +2,7 @@
 from ..prov import get_an, pp, bytes_of, strip_sites, walk, unref
 from .. import booldec
 from .common import (all_ans, impl_bodies, bodies_calling, where, is_ok_agg, is_err_agg, closure_ret, hpke_variant,
-                     fn_err_variants, ret_classes, switch_edge, uses_of_local_blocks)
+                     fn_err_variants, ret_classes, switch_edge, uses_of_local_blocks, result_outcome)
 
 EXPLANATION = (
     'Static analysis of MIR (all cargo features). R10.1: in the X25519 `dh` body the result of the dalek '
@@ -95,28 +95,25 @@ def check_dh_call_sites(rep, facts):
         if t['dest']['p']:
             rep.undecided('R10.2', fn, inst, 'result stored into a projection', 'result bound to a local', where(a, a.term_point(bi)))
             continue
-        d = t['dest']['l']
-        # the result must flow: dh -> map_err(closure -> want) -> Try::branch, each used once
-        chain_ok = False
-        found = 'result local _%d' % d
-        users = _users(a, d)
-        if len(users) == 1 and users[0][1] == 'call' and users[0][2] == 'map_err':
-            mbi = users[0][0]
-            mt = a.body.blocks[mbi]['term']
-            clos = a.arg_val(mbi, 1)
-            cr = closure_ret(facts, clos)
-            v = hpke_variant(cr) if cr else None
-            found = 'map_err(|_| %s)' % v
-            md = mt['dest']['l']
-            u2 = _users(a, md)
-            if len(u2) == 1 and u2[0][1] == 'call' and u2[0][2] == 'branch' and v == want:
-                # and the Break arm returns
-                tb = u2[0][0]
-                found += ' + ?'
-                errs = [tt for s, tt, cls in ret_classes(a, facts) if tt[0] == 'from_residual' and tt[1][0] == 'residual'
-                        and tt[1][1][0] == 'call' and tt[1][1][3] == mbi]
-                chain_ok = len(errs) == 1
-        rep.check(chain_ok, 'R10.2', fn, inst, found, 'dh(..).map_err(|_| HpkeError::%s)? — checked, mapped, propagated' % want, where(a, a.term_point(bi)))
+        # form-independent: one branch of the body decides on this result; every path through its failure edge returns
+        # Err(want); nothing else reads the result (it is not unwrapped, discarded or stored)
+        o = result_outcome(a, facts, bi)
+        if o is None:
+            rep.bad('R10.2', fn, inst, 'no branch of the body decides on the result (unwrapped / discarded / stored?)',
+                    'dh(..) checked: failure mapped to HpkeError::%s and propagated' % want, where(a, a.term_point(bi)))
+            continue
+        hows = sorted({h for _, _, h in o['err_returns']})
+        chain_ok = bool(o['err_returns']) and hows == [want]
+        # the failure edge must lead to a return, not fall back into the success code
+        chain_ok = chain_ok and not a.cfg.reaches_avoiding(o['err_edge'][1], o['ok_edge'][1])
+        found = '%s form; on failure returns %s' % (o['form'], hows or 'nothing')
+        if not t['dest']['p']:
+            bad_users = [u for u in _users(a, t['dest']['l']) if u[1] == 'call' and u[2] not in ('map_err', 'branch', 'is_err', 'is_ok')]
+            if bad_users:
+                chain_ok = False
+                found += '; also consumed by %s' % sorted({u[2] for u in bad_users})
+        rep.check(chain_ok, 'R10.2', fn, inst, found, 'dh(..) checked: failure mapped to HpkeError::%s and propagated (`.map_err(..)?`, match or early return)' % want,
+                  where(a, a.term_point(bi)))
     return len(sites)
 
 
